@@ -52,7 +52,7 @@ Theorem C01_bounded_reader_is_source : forall R (rho : R -> LR -> Prop) (o : rop
   rops_rel true (fun b l => exists bl, brel rho b bl /\ frame_rel r0 sz bl l) (bounded_rops o) lr_ops.
 Proof.
   intros R rho o r0 sz Hops Hs.
-  exact (rops_rel_trans _ _ _ _ _ (bounded_rops_rel true rho o lr_ops Hops) (lr_bounded_rel r0 sz Hs)).
+  exact (rops_rel_trans _ _ _ _ _ (bounded_rops_rel1 true rho o lr_ops Hops) (lr_bounded_rel r0 sz Hs)).
 Qed.
 Print Assumptions C01_bounded_reader_is_source.
 
